@@ -197,6 +197,23 @@ def run_harness(pid, args, timeout=1800):
 def eval_shards(rundir, timeout=1800):
     """coqc every cases_<k>.v in parallel; returns (mism, pviol, errors)."""
     files = sorted(glob.glob(os.path.join(rundir, "cases_*.v")))
+    # the case files import modules by name: make sure each is compiled (on a fresh tree a module that
+    # is not a dependency of the property's Property/Exec targets would otherwise be missing)
+    mods = set()
+    for f in files[:1]:
+        with open(f, errors="replace") as fh:
+            head = fh.read(4000)
+        for line in head.splitlines():
+            line = line.strip()
+            if line.startswith("From Akita Require") and line.endswith("."):
+                for name in line[:-1].split()[3:]:
+                    if name not in ("Import", "Export"):
+                        mods.add("theories/" + name.replace(".", "/") + ".vo")
+    mods = sorted(t for t in mods if os.path.exists(os.path.join(COQ, t[:-1])))
+    if mods:
+        rc, out = coq_make(mods, timeout=timeout)
+        if rc != 0:
+            return [], [], ["imports of the case files do not build: " + out[-1200:]]
 
     def one(f):
         rc, out, wall = sh(["coqc", "-Q", os.path.join(COQ, "theories"), "Akita", os.path.basename(f)],
